@@ -414,9 +414,15 @@ def _labels(repo, fn: Fn):
             continue
         lab = repo.const(fn.mod, c.args[2])
         if lab is Unknown and isinstance(c.args[2], ast.Name):
-            defs = fn.local_defs(c.args[2].id)
-            labs = [repo.const(fn.mod, d) for d in defs]
-            lab = tuple(labs) if all(l is not Unknown for l in labs) else Unknown
+            # label chosen by an earlier (version) test: one entry per definition, with that definition's guards
+            done = False
+            for st, t, v in fn.assigns(chain=c.args[2].id):
+                l2 = repo.const(fn.mod, v)
+                pol2 = _is_v2(fn.lexical_guards(st, expand=False))
+                out.append((l2, pol2 if pol2 is not None else _is_v2(fn.guard_atoms(c)), c))
+                done = True
+            if done:
+                continue
         pol = _is_v2(fn.guard_atoms(c) + fn.lexical_guards(c, expand=False))
         out.append((lab, pol, c))
     return out
